@@ -129,9 +129,13 @@ def _malformed(rng, sec, tier):
 
 def generate(tier, rng):
     for sec in SECS:
-        for d in _patterns(rng, sec, tier):
+        prev = None
+        for i, d in enumerate(_patterns(rng, sec, tier)):
             yield {'kind': 'write', 'sec': sec, 'data': lib.hx(d)}
             yield {'kind': 'read', 'sec': sec, 'data': lib.hx(d)}
+            if prev is not None and i % 4 == 1:
+                yield {'kind': 'write', 'sec': sec, 'data': lib.hx(d), 'prior': lib.hx(prev)}
+            prev = d
         for lines in _malformed(rng, sec, tier):
             yield {'kind': 'malformed', 'sec': sec, 'lines': [lib.hx(l) for l in lines]}
     # steganography: all (channel value, byte) pairs
@@ -174,6 +178,24 @@ def _p8_sections(path):
 
 def run_impl(case):
     k = case['kind']
+    if k == 'write' and case.get('prior') is not None:
+        # the section object is not fresh: it belongs to a cart, held other bytes, was rendered once, and then got the
+        # bytes of the case through the cart's raw memory write (Game.write_cart_data writes the section's buffer from
+        # outside the section class; so do Map.set_cell / set_rect_tiles for the lower half of the sprite sheet).  What
+        # is rendered now must be the text of the bytes the section holds now.
+        from pico8.game.game import Game
+        START = {'gfx': 0, 'map': 0x2000, 'gff': 0x3000, 'music': 0x3100, 'sfx': 0x3200}
+        try:
+            g = Game.make_empty_game(version=8)
+            s = getattr(g, case['sec'])
+            s._data[:] = lib.unhx(case['prior'])
+            list(s.to_lines())
+            g.write_cart_data(lib.unhx(case['data']), START[case['sec']])
+            if bytes(s._data) != lib.unhx(case['data']):
+                return {'res': 'ERR raw-write-did-not-store'}
+            return {'res': 'OK ' + _lines_str(list(s.to_lines()))}
+        except Exception as e:  # noqa
+            return {'res': 'ERR ' + lib.exc_name(e)}
     if k == 'write':
         cls = _cls(case['sec'])
         try:
